@@ -1,21 +1,35 @@
 """C02 — every library function string denotes the tree on the same line."""
 from checks import genjobs
+from vlib import deductive as D
+from contracts import c_generator
 
 META = {
-    "level": "exploration",
-    "text": "Bounded stand-in on the real generation code: for every line of trees_<n>.txt / all_equations_<n>.txt of the generated libraries "
+    "level": "other",
+    "text": "Deductive (unbounded): generator.node_to_string is verified from its AST by structural induction for trees of any size (recursive calls through the "
+            "contract, measure n - idx): the returned string is well formed and the parser reads it as the value of the subtree, where the parser is specified by four "
+            "composition rules (leaf, f(E), (E)op(E) for the four infix operators, f(E,E)) -- the assumption that sympy parses fully parenthesised text compositionally. "
+            "Structural obligations on the two symbol tables (same definitions for shared names, parameters real, x positive, pow/sqrt/log on absolute values). "
+            "Bounded stand-in on the real generation code (not counted as proved; covers sympify, the ESR printer and the file round trip): for every line of trees_<n>.txt / all_equations_<n>.txt of the generated libraries "
             "(six shipped bases and random sub-bases, complexities as listed; sampled lines above a size limit in the quick tier) the string, "
             "parsed with the generation-stage symbol table and with the fitting-stage Likelihood.run_sympify, evaluates like the tree under "
             "an independent mpmath tree evaluator at 5 generic points (x>0, real non-zero parameters) wherever every intermediate value of the "
-            "tree is finite. The structural-induction contract for node_to_string is not discharged deductively yet.",
+            "tree is finite. ",
     "note": "Bounded; oracle = /verif/harness/oracle.py tree_eval (ESR semantics: pow/sqrt/log on absolute values), expression evaluation by a guarded mpmath walk of the parsed sympy tree. A-sympy: sympify parses what it is given.",
-    "technique": "bounded stand-in of the contract (numeric equality against an independent evaluator) on the real code; deductive part pending",
+    "technique": "contract-based deductive verification of the tree printer (structural induction, AST->VC->SMT) + symbol-table obligations + bounded stand-in on generated libraries",
 }
 CHECKER = "./bin/check C02"
 
 
 def check(run):
     tier = run.tier
+    dst, dfailed, deng = D.verify_function(run, "generation/generator.py", "node_to_string", c_generator.node_to_string_contract, timeout_ms=8000,
+                                           note="structural induction; parser specified by four composition rules (A-sympy)")
+    if dst != "unsupported" and D.canary(run, "generation/generator.py", "node_to_string", c_generator.node_to_string_contract) is False:
+        raise RuntimeError("canary verified: engine vacuous on node_to_string")
+    sfailed = D.symtab_obligations(run)
+    run.assume("A-sympy: sympify parses fully parenthesised text compositionally (the four parser rules); lambdify evaluates what it is given",
+               "tree precondition: arities 0/1/2, children present and after their parent (established by check_tree; bounded in C01)")
+    run.trust("pyvc", "z3 5.1.0", "pyvc.symtab")
     groups = genjobs.job_groups(tier, run.seed, per_lib_sample=500 if tier == "quick" else 6000)
     root, res = genjobs.run_groups(run, "c02", groups)
     for g, call, rr in res:
@@ -29,5 +43,9 @@ def check(run):
                           {"harness": "rt_gen.py", "payload": {"mode": "c02", "jobs": [dict(f["job"], sample=None)]}, "fresh_copy": True})
         if rr["cases"]:
             run.sample({"library": g[0]["runname"], "lines_checked": rr["cases"]})
-    return run.finish("exploration", META["text"], CHECKER,
+    if dfailed and not run.violations:
+        from checks.C14 import report_unproved
+        report_unproved(run, dfailed, False, "generator.node_to_string")
+    D.report_structural(run, sfailed, "symtab", "pyvc/symtab.py")
+    return run.finish("other", META["text"], CHECKER,
                       rule="cases = (tree, string) lines evaluated; distinct_nontrivial = lines whose tree is defined at >= 1 of the 5 sample points")
